@@ -566,6 +566,16 @@ class StartStopSuite(SystemSuite):
                 yield mk([(g, 0, False, "Go"), (g2, rng.randrange(n), False, "Go")])
                 t = rng.randint(g + 2, 5)
                 yield mk([(g, 0, False, "Go"), (t, 1, False, "That's all"), (rng.randint(t + 2, 9), 0, False, "Go")])
+        # a lead of ODD length with start indices outside [0, lead length): the stroke of the start is
+        # the parity of the start index AS CONFIGURED (reducing it mod the lead length flips it)
+        for (stage, n) in ((5, 5), (5, 6)):
+            for si in (-1, -2, -3, 3, 4, 5, -7):
+                for udi in (False, True):
+                    mk = lambda pl: self.make(rng, stage=stage, n=n, start_index=si, udi=udi, sar=False, placements=pl,
+                                              nrows=nrows, method="3.1.5")  # noqa: E731
+                    yield mk([])
+                    for g in (rng.randint(0, 1), rng.randint(2, 4)):
+                        yield mk([(g, rng.randrange(n), rng.random() < 0.3, "Go")])
         # custom start rows and up-down-in with a backstroke start
         for _ in range(10 if tier == "quick" else 60):
             stage = rng.choice([4, 6])
@@ -607,7 +617,7 @@ class StartStopSuite(SystemSuite):
         sp_hand = spec["start_index"] % 2 == 0
         # method rows from the textbook reading of the notation
         from suites.gens import textbook_change, apply_change
-        pn = {"x1x1,2": [[], [1], [], [1], [], [1], [], [2]], "3.1": [[3], [1]]}[spec["method"]]
+        pn = {"x1x1,2": [[], [1], [], [1], [], [1], [], [2]], "3.1": [[3], [1]], "3.1.5": [[3], [1], [5]]}[spec["method"]]
         start_row = opening[:max(stage, len(custom or ""))] if custom else rounds[:stage]
         mrows, row = [], list(start_row)
         for i in range(orc["nrows"] + 2):
@@ -694,6 +704,119 @@ class StartStopSuite(SystemSuite):
         for (r, bells, _t) in rows_rung(out):
             if len(bells) == n and sorted(bells) != list(range(1, n + 1)):
                 return f"row {r} = {bells} is not a complete row of the tower"
+        return None
+
+
+# ============================================================================= C05 at Bot level
+class SecondTouchSuite(StartStopSuite):
+    """C05 through the whole Bot: a first touch with Bob/Single calls is cut short (That's all, or a
+    fresh Look to) anywhere - with a call still pending, in the middle of a multi-change call, deep
+    in the course - and the method is started again by Go.  Every method start must be followed by
+    the rows a fresh generator gives, given only the calls made after that start."""
+    name = "second_touch"
+    coq_cap = {"quick": 150}
+    METHODS = {
+        "x16x16x16,12": (6, [[], [1, 6], [], [1, 6], [], [1, 6], [], [1, 6], [], [1, 6], [], [1, 2]]),
+        "5.1.5.1.5,125": (5, [[5], [1], [5], [1], [5], [1], [5], [1], [5], [1, 2, 5]]),
+        "x1x1,2": (4, [[], [1], [], [1], [], [1], [], [2]]),
+    }
+    CALLDEFS = {     # name -> (definition as passed to the generator, the same as place sets)
+        6: [(None, None), ({"0": "14"}, {0: [[1, 4]]}), ({"0": "1234.16.1234"}, {0: [[1, 2, 3, 4], [1, 6], [1, 2, 3, 4]]}),
+            ({"-3": "14.36"}, {-3: [[1, 4], [3, 6]]}), ({"0": "x"}, {0: [[]]})],
+        5: [(None, None), ({"0": "145"}, {0: [[1, 4, 5]]}), ({"0": "123.1.345"}, {0: [[1, 2, 3], [1], [3, 4, 5]]})],
+        4: [(None, None), ({"0": "14"}, {0: [[1, 4]]}), ({"3": "1234.14"}, {3: [[1, 2, 3, 4], [1, 4]]})],
+    }
+
+    def scenarios(self, rng, tier):
+        for _ in range(150 if tier == "quick" else 1500):
+            method = rng.choice(list(self.METHODS))
+            stage, expanded = self.METHODS[method]
+            L = len(expanded)
+            n = stage + rng.choice([0, 0, 1])
+            si = rng.choice([0, 0, 1, -1, 2, 5, -4])
+            bob = rng.choice(self.CALLDEFS[stage])
+            single = rng.choice(self.CALLDEFS[stage])
+            g = rng.randint(0, 2)
+            pl = [(g, rng.randrange(n), False, "Go")]
+            r1 = g + 2 + rng.randint(0, L + 2)
+            c1 = rng.choice(["Bob", "Single"])
+            pl.append((r1, rng.randrange(n), rng.random() < 0.2, c1))
+            t = r1 + rng.randint(0, L + 1)
+            relook = None
+            if rng.random() < 0.7:
+                pl.append((t, rng.randrange(n), False, "That's all"))
+                g2 = t + rng.randint(2, 5)
+            else:
+                relook = t if t % 2 == 1 else t + 1
+                g2 = relook + 1 + rng.randint(0, 2)
+            pl.append((g2, rng.randrange(n), False, "Go"))
+            if rng.random() < 0.6:
+                pl.append((g2 + 2 + rng.randint(0, L), rng.randrange(n), False, rng.choice(["Bob", "Single"])))
+            nrows = g2 + 2 * L + 6
+            case = self.make(rng, stage=stage, n=n, start_index=si, udi=False, sar=False, placements=pl, nrows=nrows,
+                             method=method, relook_row=relook)
+            case["gen"]["bob"], case["gen"]["single"] = bob[0], single[0]
+            case["oracle"]["defs"] = {"bob": None if bob[1] is None else {str(k): v for k, v in bob[1].items()},
+                                      "single": None if single[1] is None else {str(k): v for k, v in single[1].items()}}
+            yield case
+
+    def oracle_C05(self, case, out):
+        if "trace" not in out:
+            return None
+        orc = case["oracle"]
+        n = orc["n"]
+        spec = case["gen"]
+        stage, expanded = self.METHODS[spec["method"]]
+        L = len(expanded)
+        rounds = list(range(1, n + 1))
+        si = spec["start_index"]
+        defs = {}
+        for kind, dflt in (("bob", [[1, 4]]), ("single", [[1, 2, 3, 4]])):
+            d = orc["defs"][kind]
+            defs[kind] = {(0 - 1) % L: dflt} if d is None else {(int(k) - 1) % L: v for k, v in d.items()}
+        got = [(r, bells) for (r, bells, _t) in rows_rung(out) if len(bells) == n]
+        calls = orc["calls"]
+        if orc.get("relook_row") is not None:
+            # the first touch (judged up to the second Look to), then the second
+            k = orc["relook_row"] + 1
+            touches = [(got[:k], [(r, c) for (r, c) in calls if r < k]),
+                       (got[k:], [(r - k, c) for (r, c) in calls if r >= k])]
+        else:
+            touches = [(got, calls)]
+        for ti, (rows, cs) in enumerate(touches):
+            ctl = [(r, c) for (r, c) in cs if c not in ("Bob", "Single")]
+            kinds = touch_spec(len(rows), si % 2 == 0, False, False, ctl, lambda kd: False)
+            if kinds is None:
+                return None
+            # (is_rounds_row is only consulted for That's all: "rounds came up" - answered below from the rows themselves)
+            i = 0
+            while i < len(kinds):
+                if kinds[i] != ("M", 0):
+                    i += 1
+                    continue
+                j = i
+                while j < len(kinds) and kinds[j] not in ("O", "R"):
+                    j += 1
+                # method rows i .. j-1 ; row i+q (q>=1) sees the calls delivered during rows i .. i+q-1
+                history = []
+                for q in range(j - i):
+                    if q > 0:
+                        history += [c.lower() for (r, c) in cs if r == i + q - 1 and c in ("Bob", "Single")]
+                    history.append("next")
+                want = gens.reference_rows(stage, rounds[:stage], expanded, defs["bob"], defs["single"], si, history)
+                if want is None:
+                    return None
+                for q in range(j - i):
+                    if i + q >= len(rows):
+                        break
+                    w = want[q] + rounds[stage:]
+                    if rows[i + q][1] == rounds and w != rounds:
+                        break      # That's all took effect early because rounds... (not this property's business)
+                    if rows[i + q][1] != w:
+                        return (f"touch {ti + 1}: the method started at row {i}; its row {q} was {rows[i + q][1]} but a fresh "
+                                f"Wheatley given only the calls made after that start rings {w} "
+                                f"(calls so far in the session: {cs})")
+                i = j
         return None
 
 
@@ -1030,19 +1153,32 @@ class CompositionSuite(SystemSuite):
             sch = Schedule(look_to, dur)
             nrows = len(p["rows"]) + 9
             evs = [ev(0, "global", [True] * n), ev(look_to, "call", "Look to")]
-            go = None
-            if not udi:
-                go = (rng.randint(0, 6), rng.randrange(n), rng.random() < 0.25)
-                j = go[0] * n + go[1]
-                t = sch.pause(j, Fraction(rng.randint(20, 80), 101)) if go[2] else sch.wait(j, Fraction(rng.randint(5, 95), 101))
+
+            def place_go(base_row):
+                g = (rng.randint(0, 6), rng.randrange(n), rng.random() < 0.25)
+                j = g[0] * n + g[1]
+                jj = base_row * n + j
+                t = sch.pause(jj, Fraction(rng.randint(20, 80), 101)) if g[2] else sch.wait(jj, Fraction(rng.randint(5, 95), 101))
                 evs.append(ev(t, "call", "Go"))
-                go = ((j + 1) // n if go[2] else go[0], fstr(t))
+                return ((j + 1) // n if g[2] else g[0], fstr(t))
+            go = None if udi else place_go(0)
+            # the SAME composition rung a second time: a fresh Look to in the pause after the last blow
+            # of a whole pull of the first touch (anywhere: in its rounds, in the composition, after it)
+            relook, go2, total = None, None, nrows
+            if rng.random() < 0.4:
+                r = 2 * rng.randint(1, max(1, (nrows - 1) // 2)) - 1
+                if go is None or r > go[0]:
+                    t2 = sch.pause(r * n + n - 1, Fraction(1, 2))
+                    evs.append(ev(t2, "call", "Look to"))
+                    relook = (r, fstr(t2))
+                    go2 = None if udi else place_go(r + 1)
+                    total = r + 1 + nrows
             yield {"gen": {"kind": "complib", "payload": p}, "udi": udi, "stop_at_rounds": False,
                    "call_comps": rng.random() < 0.8, "name": None, "instance": None,
-                   "rhythm": {"kind": "scripted", "durs": [fstr(dur)] * (nrows * n + 8)},
+                   "rhythm": {"kind": "scripted", "durs": [fstr(dur)] * (total * n + 8)},
                    "delta": fstr(rng.choice([0, Fraction(1, 1000)])),
-                   "horizon": fstr(sch.end_of(nrows * n) + Fraction(1, 3000)), "events": sorted_events(evs),
-                   "oracle": {"n": n, "go": go}}
+                   "horizon": fstr(sch.end_of(total * n) + Fraction(1, 3000)), "events": sorted_events(evs),
+                   "oracle": {"n": n, "go": go, "relook": relook, "go2": go2}}
 
     def to_coq(self, case, out):
         c = {k: v for k, v in case.items() if k != "oracle"}
@@ -1055,6 +1191,23 @@ class CompositionSuite(SystemSuite):
     def oracle_C16(self, case, out):
         if "trace" not in out:
             return None
+        n = case["oracle"]["n"]
+        got = [(r, bells, t) for (r, bells, t) in rows_rung(out) if len(bells) == n]
+        made = calls_made(out)
+        st = strikes(out)
+        relook = case["oracle"].get("relook")
+        if relook is None:
+            return self.one_touch(case, got, made, st, case["oracle"]["go"], "")
+        t2 = Fraction(relook[1])
+        msg = self.one_touch(case, [x for x in got if x[2] < t2], [x for x in made if x[0] < t2],
+                             [x for x in st if x[0] < t2], case["oracle"]["go"], "first touch: ")
+        if msg:
+            return msg
+        return self.one_touch(case, [x for x in got if x[2] > t2], [x for x in made if x[0] > t2],
+                              [x for x in st if x[0] > t2], case["oracle"]["go2"],
+                              f"second touch of the same composition (Look to again after row {relook[0]}): ")
+
+    def one_touch(self, case, got, made, st, go, label):
         p = case["gen"]["payload"]
         n = case["oracle"]["n"]
         stage = p["stage"]
@@ -1073,10 +1226,9 @@ class CompositionSuite(SystemSuite):
         if case["udi"]:
             m, g, rl = (2 if sp_hand else 3), None, None
         else:
-            g = case["oracle"]["go"][0]
+            g = go[0]
             m = g + 1 if ((g + 1) % 2 == 0) == sp_hand else g + 2
             rl = m - g - 1          # rows of rounds still to come after the row of the Go
-        got = [(r, bells, t) for (r, bells, t) in rows_rung(out) if len(bells) == n]
         for i, (r, bells, _t) in enumerate(got):
             if i < m:
                 want = rounds
@@ -1085,13 +1237,12 @@ class CompositionSuite(SystemSuite):
             else:
                 want = rounds
             if bells != want:
-                return f"row {i}: rang {bells}, the composition says {want} (first change at row {m})"
+                return label + f"row {i}: rang {bells}, the composition says {want} (first change at row {m})"
         # calls: text, order and position
-        made = calls_made(out)
         if not case["call_comps"]:
-            return "calls were made although calling is switched off" if made else None
+            return label + "calls were made although calling is switched off" if made else None
         if any(c == "Stand" for _t, c in made):
-            return "Wheatley called 'Stand'"
+            return label + "Wheatley called 'Stand'"
         expected = []        # (row index or 'go', call)
         for j in sorted(early, reverse=True):
             row = m - j
@@ -1102,20 +1253,22 @@ class CompositionSuite(SystemSuite):
                 expected += [("go", c) for c in early[j]]
         for k, (_bells, cs) in enumerate(comp):
             expected += [(m + k, c) for c in cs]
-        expected = [(w, c) for (w, c) in expected if w == "go" or w < len(got)]
-        if [c for _w, c in expected] != [c for _t, c in made][:len(expected)] or len(made) > len(expected):
-            return f"calls made {[c for _t, c in made]} but the composition says {[c for _w, c in expected]}"
+        n_started = len(got)
+        if got and not [ts for (ts, _b, _h) in st if ts >= got[-1][2]]:
+            n_started -= 1          # the last row was begun but its first bell has not struck yet
+        expected = [(w, c) for (w, c) in expected if (w == "go" and g < len(got)) or (w != "go" and w < n_started)]
+        if [c for _w, c in expected] != [c for _t, c in made]:
+            return label + f"calls made {[c for _t, c in made]} but the composition says {[c for _w, c in expected]}"
         lead_times = {i: t for i, (_r, _b, t) in enumerate(got)}
-        st = strikes(out)
         for (where, c), (t, _c) in zip(expected, made):
             if where == "go":
-                if t != Fraction(case["oracle"]["go"][1]):
-                    return f"missed call {c!r} was not made at once when Go came late"
+                if t != Fraction(go[1]):
+                    return label + f"missed call {c!r} was not made at once when Go came late"
             else:
                 # at the lead of that row: same instant as the first strike of the row, after it
                 first_strike = [ts for (ts, _b, _h) in st if ts >= lead_times[where]]
                 if not first_strike or t != first_strike[0]:
-                    return f"call {c!r} of row {where} was not made as that row's first bell struck"
+                    return label + f"call {c!r} of row {where} was not made as that row's first bell struck"
         return None
 
     def oracle_C01(self, case, out):
